@@ -25,6 +25,16 @@ say which old face / vertex each survivor is, and plain numpy compares
   * index range           0 <= faces < len(vertices)
   * multiset              split(only_watertight=False, repair=False) partitions the faces and
                           concatenating the parts reproduces the triangle multiset exactly
+
+Operations that hand out NEW meshes (split, submesh, concatenate) are also run as one step of a
+caller's history: the returned meshes are edited in place (moved, thinned, inverted,
+re-coloured ...), or the source gets its visual, and the same call is made again on the
+unmodified source (keywords in another order, or on mesh.copy(include_cache=True)); every result is
+judged by the same oracle and the source must not have changed with the edits.
+
+Magnitude class ("far"): the same integer meshes in large units / far from the origin, on both
+sides (10x gap) of the point where |x| * 10**digits leaves int64 (input class
+coords_overflow_int64_grid in the key).
 """
 
 from __future__ import annotations
@@ -40,7 +50,8 @@ RULE = (
     "provenance-tagged mesh: closed integer meshes and soups decorated with exact / within-tolerance "
     "(1e-9) / outside-tolerance (1e-6) duplicate vertices, unreferenced vertices, repeated and "
     "degenerate faces, NaN/inf coordinates; x visual kind (none/face/vertex/texture) x normals "
-    "(cold/computed/assigned). distinct = distinct (operation, options, mask, visual, normals, "
+    "(cold/computed/assigned); the meshes also placed at scale 1e6..1e15 / offset 1e12..1e15; split / submesh / "
+    "concatenate also repeated after the caller edited the earlier result in place. distinct = distinct (operation, options, mask, visual, normals, "
     "mesh bytes); non-trivial = the operation changed the face or vertex arrays (or produced "
     "new meshes) so that a mis-indexing was possible."
 )
@@ -184,15 +195,10 @@ class Tagged:
     def digest(self):
         return (self.V.tobytes(), self.F.tobytes(), self.uvg.tobytes(), self.ng.tobytes())
 
-    def build(self, visual, normals, image_variant=0):
-        import trimesh
+    def apply_visual(self, m, visual, image_variant=0):
+        """Attach the id-encoding visual to a mesh that holds this object's arrays."""
         from trimesh.visual.texture import TextureVisuals
 
-        m = trimesh.Trimesh(vertices=self.V.copy(), faces=self.F.copy(), process=False)
-        m.face_attributes["id"] = np.arange(self.nf)
-        m.face_attributes["tag2"] = np.column_stack([np.arange(self.nf), -np.arange(self.nf)])
-        m.vertex_attributes["id"] = np.arange(self.nv)
-        m.vertex_attributes["pos"] = self.V.copy()
         visual, _, vstate = visual.partition(":")
         if visual == "face":
             if vstate == "default_edited" and self.nf:
@@ -210,6 +216,16 @@ class Tagged:
                 _ = m.visual.face_colors
         elif visual == "texture":
             m.visual = TextureVisuals(uv=self.uv.copy(), image=_image(image_variant))
+
+    def build(self, visual, normals, image_variant=0):
+        import trimesh
+
+        m = trimesh.Trimesh(vertices=self.V.copy(), faces=self.F.copy(), process=False)
+        m.face_attributes["id"] = np.arange(self.nf)
+        m.face_attributes["tag2"] = np.column_stack([np.arange(self.nf), -np.arange(self.nf)])
+        m.vertex_attributes["id"] = np.arange(self.nv)
+        m.vertex_attributes["pos"] = self.V.copy()
+        self.apply_visual(m, visual, image_variant)
         if normals == "computed":
             _ = m.face_normals
             _ = m.vertex_normals
@@ -236,6 +252,7 @@ def _j2f(x):
     return float(x)
 
 
+PLACEMENTS = ("scale_1e6", "scale_1e12", "scale_1e15", "offset_1e12", "offset_1e15")
 SOUP_TAGS = ("fan", "bowtie", "moebius", "open_grid", "soup")
 FEATURES = ("dup_exact", "dup_within", "dup_outside", "unref", "repeat", "degenerate", "nonfinite_unref", "nonfinite_ref")
 
@@ -244,6 +261,18 @@ def decorate(rng, V, F, feats, tag=""):
     """Add the requested hostile features to an integer mesh (V, F)."""
     V = np.array(V, dtype=np.float64)
     F = np.array(F, dtype=np.int64)
+    if "far" in feats:
+        # magnitude class: the same integer mesh in large units or far from the origin (every
+        # value stays exactly representable).  Around |x| * 10**digits = 2**63 the integer grid
+        # merge_vertices rounds to runs out; the placements keep a 10x gap on either side of
+        # that for the default 8 digits (scale_1e6 is the "still fine" control).
+        kind = PLACEMENTS[int(rng.integers(len(PLACEMENTS)))]
+        how, _, mag = kind.partition("_")
+        if how == "scale":
+            V = V * float(mag)
+        else:
+            V[:, int(rng.integers(3))] += float(mag)
+        feats = tuple(f for f in feats if f != "far") + ("far:" + kind,)
     nv0 = len(V)
     uvg = list(range(nv0))
     ng = [int(x) for x in rng.integers(0, len(_DIRS), size=nv0)]
@@ -371,6 +400,17 @@ def base_meshes(rng, count):
 
 # ----------------------------------------------------------------------------
 # the oracle
+
+
+def grid_class(T, digits):
+    """
+    Input class of a merge: '' or ' input=coords_overflow_int64_grid' when some finite coordinate
+    times 10**digits does not fit the int64 the positions are rounded to.
+    """
+    V = T.V[np.isfinite(T.V)]
+    if len(V) and float(np.abs(V).max()) * 10.0 ** digits >= 2.0 ** 63:
+        return " input=coords_overflow_int64_grid"
+    return ""
 
 
 def _same(a, b):
@@ -845,6 +885,11 @@ def op_merge_vertices(cx):
         "unit_n": None if p.get("merge_norm") else 10.0 ** -(2 if p.get("digits_norm") is None else p["digits_norm"]),
     }
     opt = "merge_tex=%s merge_norm=%s" % (bool(p.get("merge_tex")), bool(p.get("merge_norm")))
+    over = grid_class(cx.T, 8 if dv is None else dv)
+    if over:
+        # the merge options play no part in this input class: one key per symptom
+        opt = over.strip()
+        cx.run.count("merge_on_coords_beyond_int64_grid")
     cx.run.state("merge_outcome", (len(m.vertices) < cx.T.nv, cx.visual, cx.normals, opt))
     check_inplace(cx, m, exp_src_face=np.arange(cx.T.nf), merging=merging, opt=opt, lenient_nonfinite=True)
     _finish(cx, len(m.vertices) != cx.T.nv)
@@ -980,7 +1025,7 @@ def op_process(cx):
     m = _prepare(cx)
     validate = bool(p.get("validate"))
     kw = {k: p[k] for k in ("merge_tex", "merge_norm") if p.get(k) is not None}
-    opt = "validate=%s" % validate
+    opt = "validate=%s" % validate + grid_class(cx.T, 8)
     ok, _ = _guard(cx, lambda: m.process(validate=validate, **kw), opt)
     if ok:
         T = cx.T
@@ -1005,13 +1050,47 @@ def _index_lists(p):
     return out
 
 
+def judge_submesh(cx, res, want, append, only_wt, opt):
+    """One result of submesh against the requested (non-empty) face lists."""
+    T = cx.T
+    if append:
+        if not hasattr(res, "faces"):
+            cx.fail("result_type", "submesh(append=True) did not return a mesh", {"type": type(res).__name__}, opt)
+            return
+        check_piece(cx, res, np.concatenate(want), opt)
+        return
+    if only_wt:
+        # survivors must each be one of the requested pieces, in request order
+        j = 0
+        for piece in res:
+            nfp = len(piece.faces)
+            while j < len(want) and not _piece_matches(T, piece, want[j]):
+                j += 1
+            if j >= len(want):
+                cx.fail("piece_unknown", "a returned submesh is not one of the requested face sets (in order)", {"faces": int(nfp)}, opt)
+                break
+            check_piece(cx, piece, want[j], opt, prefix_only=True)
+            if nfp != len(want[j]):
+                cx.run.count("submesh_holes_filled")
+            j += 1
+    else:
+        if len(res) != len(want):
+            cx.fail("piece_count", "submesh did not return one mesh per non-empty index list",
+                    {"got": len(res), "want": len(want)}, opt)
+        else:
+            for piece, w in zip(res, want):
+                check_piece(cx, piece, w, opt)
+
+
 def op_submesh(cx):
+    """params: sequence, append, only_watertight; history 'again_after_editing_result' (see op_split)."""
     p = cx.params
     T = cx.T
     m = _prepare(cx)
     seq = _index_lists(p)
     append = bool(p.get("append"))
     only_wt = bool(p.get("only_watertight"))
+    hist = p.get("history")
     opt = "append=%s" % append + (" only_watertight=True" if only_wt and not append else "")
     before = (T.V.tobytes(), T.F.tobytes())
     ok, res = _guard(cx, lambda: m.submesh(seq, append=append, only_watertight=only_wt, repair=False), opt)
@@ -1021,37 +1100,25 @@ def op_submesh(cx):
         cx.fail("source_modified", "submesh changed the source mesh", None, opt)
     want = [np.arange(T.nf)[s] for s in seq]
     want = [w for w in want if len(w)]
-    if append:
-        if not want:
-            cx.run.count("submesh_empty_request")
-            return _finish(cx, False)
-        if not hasattr(res, "faces"):
-            cx.fail("result_type", "submesh(append=True) did not return a mesh", {"type": type(res).__name__}, opt)
-            return _finish(cx, True)
-        check_piece(cx, res, np.concatenate(want), opt)
-    else:
+    if append and not want:
+        cx.run.count("submesh_empty_request")
+        return _finish(cx, False)
+    if not append:
         res = list(res) if res is not None else []
-        if only_wt:
-            # survivors must each be one of the requested pieces, in request order
-            j = 0
-            for piece in res:
-                nfp = len(piece.faces)
-                while j < len(want) and not _piece_matches(T, piece, want[j]):
-                    j += 1
-                if j >= len(want):
-                    cx.fail("piece_unknown", "a returned submesh is not one of the requested face sets (in order)", {"faces": int(nfp)}, opt)
-                    break
-                check_piece(cx, piece, want[j], opt, prefix_only=True)
-                if nfp != len(want[j]):
-                    cx.run.count("submesh_holes_filled")
-                j += 1
-        else:
-            if len(res) != len(want):
-                cx.fail("piece_count", "submesh did not return one mesh per non-empty index list",
-                        {"got": len(res), "want": len(want)}, opt)
-            else:
-                for piece, w in zip(res, want):
-                    check_piece(cx, piece, w, opt)
+    judge_submesh(cx, res, want, append, only_wt, opt)
+    if hist and not cx.failed:
+        opt2 = opt + " history=" + hist
+        edit_results(cx, [res] if append else res, p.get("edits") or ["translate"])
+        if source_untouched(cx, m, opt2):
+            ok, again = _guard(cx, lambda: m.submesh(seq, repair=False, only_watertight=only_wt, append=append), opt2)
+            if ok:
+                if not append:
+                    again = list(again) if again is not None else []
+                    if only_wt and len(again) != len(res):
+                        cx.fail("piece_count", "the same submesh of the unmodified mesh returns a different number of meshes the second time",
+                                {"first": len(res), "second": len(again)}, opt2)
+                judge_submesh(cx, again, want, append, only_wt, opt2)
+                cx.run.count("submesh_histories_judged")
     _finish(cx, True)
 
 
@@ -1127,19 +1194,69 @@ def infer_src_faces(cx, piece, partial=False):
     return np.array(out, dtype=np.int64), "position"
 
 
-def op_split(cx):
+EDITS = ("translate", "vertices_assign", "vertices_inplace", "thin", "invert", "faces_reversed", "recolour")
+HISTORIES = {
+    "split": ("again_after_editing_result", "copy_with_cache_after_editing_result", "again_after_assigning_visual"),
+    "submesh": ("again_after_editing_result",),
+    "concatenate": ("again_after_editing_result",),
+}
+
+
+def edit_results(cx, meshes, edits):
+    """
+    The caller does something IN PLACE with the meshes an operation handed out (they belong to
+    the caller): an exploded view, thinning, re-colouring ...  One edit per mesh, cycling through
+    `edits`; a failing edit is the caller's problem, not judged.
+    """
+    for i, part in enumerate(meshes):
+        kind = edits[i % len(edits)]
+        try:
+            if kind == "recolour":
+                vk = part.visual.kind
+                if vk == "face":
+                    part.visual.face_colors = np.full((len(part.faces), 4), 7, dtype=np.uint8)
+                elif vk == "vertex":
+                    part.visual.vertex_colors = np.full((len(part.vertices), 4), 7, dtype=np.uint8)
+                elif vk == "texture" and part.visual.uv is not None:
+                    part.visual.uv = np.asarray(part.visual.uv)[::-1] * 0.5
+                else:
+                    kind = "translate"
+            if kind == "translate":
+                part.apply_translation([0.0, 0.0, 16.0 * (i + 1)])
+            elif kind == "vertices_assign":
+                part.vertices = np.asarray(part.vertices) * 2.0 + 1.0
+            elif kind == "vertices_inplace":
+                v = part.vertices
+                v += 3.0
+            elif kind == "thin":
+                part.update_faces(np.arange(len(part.faces)) % 2 == 1)
+                part.remove_unreferenced_vertices()
+            elif kind == "invert":
+                part.invert()
+            elif kind == "faces_reversed":
+                part.faces = np.asarray(part.faces)[::-1].copy()
+            cx.run.count("result_edit_" + kind)
+        except BaseException as e:  # noqa
+            if isinstance(e, KeyboardInterrupt):
+                raise
+            cx.run.count("result_edit_failed")
+
+
+def source_untouched(cx, m, opt):
+    """Editing what an operation returned must not reach back into the mesh it came from."""
+    T = cx.T
+    if not (_same(np.asarray(m.vertices), T.V).all() and np.array_equal(np.asarray(m.faces).reshape(-1, 3), T.F)):
+        cx.fail("source_shares_result", "editing the returned mesh(es) in place changed the source mesh", None, opt)
+        return False
+    return True
+
+
+def judge_split(cx, parts, only_wt, opt):
+    """One list returned by split, against the source arrays held by cx.T."""
     import trimesh
 
-    p = cx.params
     T = cx.T
-    m = _prepare(cx)
-    only_wt = bool(p.get("only_watertight"))
-    opt = "only_watertight=%s" % only_wt
-    ok, parts = _guard(cx, lambda: m.split(only_watertight=only_wt, repair=False), opt)
-    if not ok:
-        return _finish(cx, True)
-    parts = list(parts) if parts is not None else []
-    cx.run.state("split_parts", min(len(parts), 6))
+    cx._used_faces = set()
     seen = []
     for piece in parts:
         src, how = infer_src_faces(cx, piece, partial=only_wt)
@@ -1148,7 +1265,7 @@ def op_split(cx):
                 cx.run.count("split_piece_unidentified")
                 continue
             cx.fail("face_not_original", "a face of a split component is not a face of the source (%s)" % how, None, opt)
-            return _finish(cx, True)
+            return
         order_src = np.asarray(src)
         # repeated faces (same three vertices, any corner order) cannot be told apart when no
         # colour / uv carries their id: give every copy the id of the first one, so that the
@@ -1196,6 +1313,60 @@ def op_split(cx):
                 if canon_triangles(np.asarray(whole.vertices)[np.asarray(whole.faces)]) != canon_triangles(T.V[T.F]):
                     cx.fail("multiset", "split then concatenate does not reproduce the triangle multiset", None, opt)
                 cx.run.count("split_concat_multisets_compared")
+
+
+def op_split(cx):
+    """
+    params: only_watertight; history (optional) - the split is one step of a caller's history:
+      again_after_editing_result            split, edit the returned meshes in place, split again
+                                            (same options, keywords in the other order)
+      copy_with_cache_after_editing_result  the same, the second split on mesh.copy(include_cache=True)
+      again_after_assigning_visual          split a bare mesh, attach the colours / texture to the
+                                            source, split again: the parts carry the new visual
+    Every split of the (unmodified) source is judged by the same oracle.
+    """
+    p = cx.params
+    T = cx.T
+    hist = p.get("history")
+    only_wt = bool(p.get("only_watertight"))
+    opt = "only_watertight=%s" % only_wt
+    late_visual = hist == "again_after_assigning_visual"
+    if late_visual:
+        full = cx.visual_full
+        cx.visual_full = "none"
+        m = _prepare(cx)
+        cx.visual_full = full
+    else:
+        m = _prepare(cx)
+    ok, parts = _guard(cx, lambda: m.split(only_watertight=only_wt, repair=False), opt)
+    if not ok:
+        return _finish(cx, True)
+    parts = list(parts) if parts is not None else []
+    cx.run.state("split_parts", min(len(parts), 6))
+    if not late_visual:
+        judge_split(cx, parts, only_wt, opt)
+    if hist and parts and not cx.failed:
+        opt2 = opt + " history=" + hist
+        if late_visual:
+            T.apply_visual(m, cx.visual_full)
+        else:
+            edit_results(cx, parts, p.get("edits") or ["translate"])
+            if not source_untouched(cx, m, opt2):
+                return _finish(cx, True)
+        src = m
+        if hist == "copy_with_cache_after_editing_result":
+            ok, src = _guard(cx, lambda: m.copy(include_cache=True), opt2)
+            if not ok:
+                return _finish(cx, True)
+        ok, again = _guard(cx, lambda: src.split(repair=False, only_watertight=only_wt), opt2)
+        if ok:
+            again = list(again) if again is not None else []
+            if len(again) != len(parts):
+                cx.fail("piece_count", "the same split of the unmodified mesh returns a different number of parts the second time",
+                        {"first": len(parts), "second": len(again)}, opt2)
+            else:
+                judge_split(cx, again, only_wt, opt2)
+            cx.run.count("split_histories_judged")
     _finish(cx, len(parts) > 0)
 
 
@@ -1225,6 +1396,20 @@ def op_concatenate(cx):
     ok, res = _guard(cx, fn, opt)
     if not ok:
         return _finish(cx, True)
+    hist = p.get("history")
+    if hist:
+        # the caller edits the mesh it was handed, then concatenates the same (untouched) inputs
+        # again: the inputs must not have moved and the second result is judged like any other
+        opt += " history=" + hist
+        edit_results(cx, [res], p.get("edits") or ["translate"])
+        for t, mm in zip(tagged, meshes):
+            if not (_same(np.asarray(mm.vertices), t.V).all() and np.array_equal(np.asarray(mm.faces).reshape(-1, 3), t.F)):
+                cx.fail("source_shares_result", "editing the concatenated mesh in place changed an input mesh", None, opt)
+                return _finish(cx, True)
+        ok, res = _guard(cx, fn, opt)
+        if not ok:
+            return _finish(cx, True)
+        cx.run.count("concatenate_histories_judged")
     # the virtual source: stacked arrays with offsets
     off = np.cumsum([0] + [t.nv for t in tagged])
     V = np.vstack([t.V for t in tagged])
@@ -1275,7 +1460,19 @@ def op_concatenate(cx):
     if all(k == "assigned" for k in kinds) and len(V) and len(F):
         vn = np.asarray(res.vertex_normals)
         want = np.vstack([t.vn for t in tagged])
-        if vn.shape != want.shape or not _same(vn, want).all():
+        carried = vn.shape == want.shape and bool(_same(vn, want).all())
+        if not carried and vn.shape == want.shape:
+            # stored normals that are DROPPED (a single input comes back as mesh.copy(), which
+            # does not keep the cache) and recomputed are not attached to a wrong vertex: same
+            # rule as check_vertex_normals - every row is the old row or the recomputed one
+            try:
+                fresh = np.asarray(trimesh.Trimesh(V.copy(), F.copy(), process=False).vertex_normals)
+                carried = bool((_same(vn, want).all(axis=1) | _close(vn, fresh, 1e-9).all(axis=1)).all())
+                if carried:
+                    cx.run.count("concatenate_vertex_normals_recomputed")
+            except BaseException:
+                cx.run.count("vertex_normal_reference_failed")
+        if not carried:
             cx.fail("vertex_normal_misaligned", "stored vertex normals of the inputs are not stacked in vertex order", None, opt)
     _finish(cx, len(tagged) > 1)
 
@@ -1426,6 +1623,20 @@ def ops_for(run, rng, T, full):
         yield "submesh", {"sequence": seq, "append": False, "only_watertight": True}
     yield "split", {"only_watertight": False}
     yield "split", {"only_watertight": True}
+    # an operation that hands out new meshes as one step of a caller's history: the result is
+    # edited in place (or the source gets its visual) and the same call is made again
+    if nf:
+        def edits():
+            return [EDITS[int(j)] for j in rng.choice(len(EDITS), size=3, replace=False)]
+
+        hs = HISTORIES["split"]
+        for h in (hs if full else [hs[int(rng.integers(len(hs)))]]):
+            yield "split", {"only_watertight": False, "history": h, "edits": edits()}
+        yield "split", {"only_watertight": True, "history": hs[int(rng.integers(len(hs)))], "edits": edits()}
+        for seq in _sequences(rng, nf):
+            append = bool(rng.integers(2))
+            yield "submesh", {"sequence": seq, "append": append, "only_watertight": False,
+                              "history": "again_after_editing_result", "edits": edits()}
     if nf:
         yield "subdivide", {"face_index": None}
         yield "subdivide", {"face_index": np.unique(rng.integers(0, nf, size=max(1, nf // 3))).tolist()}
@@ -1438,6 +1649,10 @@ def feature_sets(rng, full):
     yield ("dup_exact", "dup_within", "dup_outside")
     yield ("dup_exact", "unref", "repeat", "degenerate")
     yield ("dup_exact", "dup_within", "dup_outside", "unref", "repeat", "degenerate", "nonfinite_unref")
+    yield ("far",)
+    yield ("dup_exact", "far")
+    yield ("dup_exact", "far", "repeat", "unref")
+    yield ("degenerate", "dup_exact", "far", "nonfinite_unref")
     n = 6 if full else 2
     for _ in range(n):
         k = int(rng.integers(2, 6))
@@ -1471,6 +1686,11 @@ def workload(run):
                 for route in ("concatenate", "add"):
                     execute(run, T, visual, normals, "concatenate",
                             {"others": others, "route": route, "mixed_images": bool(i % 2)})
+                execute(run, T, visual, normals, "concatenate",
+                        {"others": [] if i % 5 == 0 else (others[:1] if i % 3 == 0 else others),
+                         "route": "concatenate" if i % 5 == 0 else ("concatenate", "add")[i % 2],
+                         "mixed_images": False, "history": "again_after_editing_result",
+                         "edits": [EDITS[int(rng.integers(len(EDITS)))]]})
                 if normals != "cold":
                     execute(run, T, visual, normals, "concatenate",
                             {"others": others, "route": "concatenate", "mixed_images": False,
